@@ -33,6 +33,7 @@ package tcp
 //@   ensures closes_listener_once: evis(0, "cas t.closed") && evarg(0, 0) == 0 && evarg(0, 1) == 1 && implies(evres(0, 0), nemitted() == 2 && evis(1, "TCPListener).Close") && evarg(1, 0) == t.listener) && implies(!evres(0, 0), nemitted() == 1 && result == nil)
 //@ func (*tcpAcceptor).Accept
 //@   params t
+//@   locals tempDelay conn err ne ok max tt
 //@   requires t != nil && t.listener != nil
 //@   modifies nothing
 //@   loop 0 emits
